@@ -29,6 +29,9 @@ type hubPre struct {
 	stateB0    api.ConnectionState
 	counterA   bool
 	connStateA model.ShipMessageExchangeState
+	attemptRunningA  bool
+	mdnsHadA         bool
+	closedRegistered bool
 }
 
 func newHubPre(withConn bool) *hubPre {
@@ -51,6 +54,7 @@ func newHubPre(withConn bool) *hubPre {
 	}
 	if zzvrt.Bool("A.attemptRunning") {
 		e.h.connectionAttemptRunning[skiA] = true
+		p.attemptRunningA = true
 	}
 	p.intentA = zzvrt.Bool("A.intent")
 	p.helloOkA = zzvrt.Bool("A.helloOk")
@@ -110,12 +114,14 @@ func (p *hubPre) doOp(op int, x string) {
 		c := p.e.newConn(x, model.SmeStateComplete, 2)
 		if p.cA != nil && x == skiA && zzvrt.Bool("op.closeRegistered") {
 			c = p.cA
+			p.closedRegistered = true
 		}
 		h.HandleConnectionClosed(c, zzvrt.Bool("op.completed"))
 	case opReportMdns:
 		entries := map[string]*api.MdnsEntry{}
 		if zzvrt.Bool("mdns.hasA") {
 			entries[skiA] = mdnsEntry(skiA)
+			p.mdnsHadA = true
 		}
 		if zzvrt.Bool("mdns.hasB") {
 			entries[skiB] = mdnsEntry(skiB)
@@ -213,6 +219,32 @@ func H_Hub_Step() {
 		helloA = helloA || trA
 	}
 	zzvrt.Assert(!(trA || qA) || intentA || helloA, "C10.inv-trust-implies-intent")
+
+	// ---- C05 (progress mechanisms): a visible, trusted, unconnected peer gets dialled; a lost connection of a
+	// trusted peer makes the hub announce itself again and look at the known mDNS entries
+	dialsA := 0
+	announces, requests := 0, 0
+	for _, ev := range p.e.log.Ev {
+		switch ev.Kind {
+		case hvDial:
+			if ev.S == skiA {
+				dialsA++
+			}
+		case hvMdnsAnnounce:
+			announces++
+		case hvMdnsRequest:
+			requests++
+		}
+	}
+	if op == opReportMdns && !down && p.mdnsHadA && p.trustA0 && p.cA == nil && !p.attemptRunningA {
+		zzvrt.Assert(dialsA >= 1, "C05.visible-trusted-peer-not-dialled")
+		zzvrt.Assert(dialsA <= 2, "C05.too-many-dials-for-one-report") // host name, then the (empty) address list
+	}
+	if op == opConnClosed && onA && p.closedRegistered && p.trustA0 {
+		zzvrt.Assert(announces >= 1 && requests >= 1, "C05.lost-trusted-connection-not-reannounced")
+		_, still := h.connections[skiA]
+		zzvrt.Assert(!still, "C05.closed-connection-still-registered")
+	}
 
 	// unregister: untrusted, state none, counter gone, connection closed
 	if op == opUnregister && onA {
